@@ -138,7 +138,7 @@ func runChild(bin string, spec RunSpec, seed int64, dir string, idx int, watchdo
 	ef, _ := os.Create(errf)
 	cmd.Stderr = ef
 	cmd.Stdout = ef
-	cmd.Env = append(os.Environ(), "GORACE=halt_on_error=0 log_path="+filepath.Join(dir, fmt.Sprintf("r%05d.race", idx)))
+	cmd.Env = append(os.Environ(), "GORACE=halt_on_error=0 exitcode=0 log_path="+filepath.Join(dir, fmt.Sprintf("r%05d.race", idx)))
 	err := cmd.Run()
 	ef.Close()
 	res := &Result{Scen: spec.Scen, Seed: seed, spec: spec}
@@ -163,12 +163,29 @@ func runChild(bin string, spec RunSpec, seed int64, dir string, idx int, watchdo
 		}
 		res.stderr = s
 	}
+	if spec.Race {
+		rv, nrep, _ := parseRaceLogs(dir, idx)
+		if res.Counts == nil {
+			res.Counts = map[string]int{}
+		}
+		res.Counts["race.reports"] += nrep
+		res.Counts["race.runs"]++
+		if len(rv) > 0 {
+			res.Violations = append(res.Violations, rv...)
+			if res.Verdict == "held" {
+				res.Verdict = "violated"
+			}
+		}
+	}
 	// a child that died without a verdict: panic / runtime fatal / killed
 	if res.Verdict == "inconclusive" && res.Inconclusive == "child produced no result" {
 		if strings.Contains(res.stderr, "panic:") || strings.Contains(res.stderr, "fatal error:") {
 			res.Verdict = "violated"
 			line := firstLineWith(res.stderr, "panic:", "fatal error:")
 			res.Violations = append(res.Violations, Violation{Props: []string{"C18", "C14"}, Sig: "child-crashed", Msg: "the process died: " + line})
+			if d := os.Getenv("VERIF_DEBUG"); d != "" {
+				os.WriteFile(fmt.Sprintf("/tmp/child-crash-%s-%d.stderr", spec.Scen, seed), []byte(res.stderr), 0o644)
+			}
 		}
 	}
 	return res
